@@ -51,6 +51,32 @@ Theorem X01_masked_conditioner_is_autoregressive :
 Proof. exact @masked_conditioner_autoregressive. Qed.
 Print Assumptions X01_masked_conditioner_is_autoregressive.
 
+(* ... hence, with NO hypothesis left about the conditioner: for the concrete masked network, all weights, and ANY scalar
+   transformer family satisfying the leaf law on blocks of np parameters (domain D / codomain C), over ANY carrier with
+   0 * a = 0: the dim-pass scan of inverse() undoes transform(), and conversely. *)
+Theorem X01_maf_net_inv_fwd_any_transformer :
+  forall (A : Type) (zero : A) (add mul : A -> A -> A) (dim : nat) (cd : option nat) (width depth np : nat)
+         (ws : list (list (list A))) (bs : list (list A)) (act : A -> A),
+  length (nth depth ws []) = (dim * np)%nat -> length (nth depth bs []) = (dim * np)%nat ->
+  (forall a : A, mul zero a = zero) ->
+  forall (tfwd tinv : list A -> A -> A) (D : A -> Prop) (d0 : A) (cond x : list A),
+  (forall p v, length p = np -> D v -> tinv p (tfwd p v) = v) -> length x = dim -> List.Forall D x ->
+  maf_inv d0 tinv (net_g zero add mul dim cd width depth np ws bs act) cond
+    (Autoreg.maf_fwd tfwd (net_g zero add mul dim cd width depth np ws bs act) cond x) = x.
+Proof. exact @maf_net_inv_fwd_any. Qed.
+Print Assumptions X01_maf_net_inv_fwd_any_transformer.
+Theorem X01_maf_net_fwd_inv_any_transformer :
+  forall (A : Type) (zero : A) (add mul : A -> A -> A) (dim : nat) (cd : option nat) (width depth np : nat)
+         (ws : list (list (list A))) (bs : list (list A)) (act : A -> A),
+  length (nth depth ws []) = (dim * np)%nat -> length (nth depth bs []) = (dim * np)%nat ->
+  (forall a : A, mul zero a = zero) ->
+  forall (tfwd tinv : list A -> A -> A) (C : A -> Prop) (d0 : A) (cond y : list A),
+  (forall p v, length p = np -> C v -> tfwd p (tinv p v) = v) -> length y = dim -> List.Forall C y ->
+  Autoreg.maf_fwd tfwd (net_g zero add mul dim cd width depth np ws bs act) cond
+    (maf_inv d0 tinv (net_g zero add mul dim cd width depth np ws bs act) cond y) = y.
+Proof. exact @maf_net_fwd_inv_any. Qed.
+Print Assumptions X01_maf_net_fwd_inv_any_transformer.
+
 (* jnp.reshape(params, (dim, -1)) yields dim blocks of np parameters each *)
 Theorem X01_conditioner_shapes :
   forall (A : Type) (zero : A) (add mul : A -> A -> A) (dim : nat) (cd : option nat)
